@@ -64,7 +64,7 @@ ObsProps ==
   /\ Chk("C10_CleanMovesToCache", C10_CleanMovesToCache) /\ Chk("C10_BuildBringsBack", C10_BuildBringsBack)
   /\ Chk("C11_CrashStateSane", C11_CrashStateSane) /\ Chk("C11_Recovers", C11_Recovers)
   /\ Chk("C12_InvalidRejected", C12_InvalidRejected) /\ Chk("C16_DamagedRejected", C16_DamagedRejected)
-  /\ Chk("C17_ContradictionReported", C17_ContradictionReported) /\ Chk("C17_HistoryKept", C17_HistoryKept)
+  /\ Chk("C17_ContradictionReported", C17_ContradictionReported) /\ Chk("C17_HistoryKept", C17_HistoryKept) /\ Chk("C17_OthersUnaffected", C17_OthersUnaffected)
   /\ Chk("C18_Twin", T_C18_Twin)
   /\ Chk("C20_StatusTruth", C20_StatusTruth)
 =============================================================================
